@@ -1,4 +1,5 @@
 import Crem.Proofs.Kirkpatrick
+import Crem.Properties.C02
 import Mathlib.Analysis.Complex.Exponential
 /-!
 # C04 — single-objective acceptance follows the Metropolis rule in the set direction
@@ -11,9 +12,17 @@ an *arbitrary* function (the decision theorems use no law of `exp` at all); the 
 uses exactly two laws, `0 ≤ exp x` and `x ≤ 0 → exp x ≤ 1`, and is instantiated with
 `Real.exp`.  The compiled driver runs the same definitions with `floatArith` (IEEE binary64).
 `0 < T` is the property's quantifier ("all positive temperatures"): the decision theorems do not
-use it in their proofs, but it marks where the field reading and the float reading agree
-(at `T = 0` Go computes `exp(-x/0) = 0` or `NaN` and never accepts; the field convention
-`x / 0 = 0` would say otherwise) — so nothing is claimed for `T ≤ 0`.
+use it in their proofs, but it marks where the field reading and the float reading agree.
+`T = 0` is NOT exotic: it is the default `StartingTemperature` (the coolant's parameter defaults to
+0 under `IsNonNegativeDecimal`), so a configuration that does not set it anneals at `T = 0`
+throughout.  There Go computes `exp(-|Δ|/0)`: `exp(-Inf) = 0` for `Δ ≠ 0` (never accepted: pure
+descent) and `exp(NaN) = NaN` for `Δ = 0` (`NaN > u` is false: reverted, and the probability
+reported is NaN, outside `[0,1]`); the field convention `x / 0 = 0` would say `exp 0 = 1`
+instead.  The property quantifies over positive temperatures, so nothing is claimed for `T ≤ 0`;
+the behaviour at `T = 0` is recorded as an observation (level note of `./check C04`; the
+correspondence runs it through the Float model bit for bit).  Along a run the temperature stays
+positive when it starts positive and the cooling factor is positive (`run_temperature_positive`),
+which is what justifies carrying `0 < T` through sequences (`run_metropolis`).
 
 Every `theorem` in this file is audited by `./check C04` (`#print axioms`).
 -/
@@ -153,6 +162,134 @@ theorem scriptedModel_lawful : LawfulModel A (scriptedModel A) (fun _ => True) :
 
 end history
 
+section step
+variable {σ χ β : Type} (A : Arith β) (M : ModelOps σ χ β)
+
+/-- The decision theorems tied to `TryRandomChange`: with the direction configured, the step's
+decision IS `acceptOrRevert` at the coolant's current temperature, on the validity verdict and the
+change the model reports for the state just proposed (`s₁ = M.tryChange s c`), with the draw on
+offer; that change is the one the explorer reports; and the model receives `AcceptChange` exactly
+when the decision is an accepting one, `RevertChange` otherwise.  Any arithmetic (the float one
+included). -/
+theorem step_decision (e : Explorer β) (s : σ) (c : χ) (u : β) (hdir : e.dir ≠ .unset) :
+    (tryRandomChange A M e s c u).decision =
+      acceptOrRevert A e.dir e.temperature (M.valid (M.tryChange s c)) (M.change (M.tryChange s c)) u ∧
+    (tryRandomChange A M e s c u).explorer.objectiveValueChange = M.change (M.tryChange s c) ∧
+    (tryRandomChange A M e s c u).model =
+      if (tryRandomChange A M e s c u).decision.accepted then M.accept (M.tryChange s c)
+      else M.revert (M.tryChange s c) :=
+  ⟨tryRandomChange_decision A M e s c u hdir, tryRandomChange_reportedChange A M e s c u hdir, rfl⟩
+
+/-- … and to the history: `steps` walks the same proposals as `run` (same reported changes, same
+accept/revert flags, in order), and every one of them — after any number of earlier proposals and
+cool-downs — was decided by `acceptOrRevert` in the direction set at the start, at the
+temperature the coolant had at that moment, on the model's verdict and reported change. -/
+theorem run_decision (ops : List (Op χ β)) (e : Explorer β) (s : σ) (hdir : e.dir ≠ .unset) :
+    (steps A M ops e s).map (fun st => (st.change, st.decision.accepted)) =
+      (run A M ops e s).1.map (fun r => (r.change, r.accepted)) ∧
+    ∀ st ∈ steps A M ops e s,
+      st.decision = acceptOrRevert A e.dir st.temperature st.valid st.change st.draw :=
+  ⟨stepsFrom_run A M 0 ops e s hdir, stepsFrom_decision A M 0 ops e s hdir⟩
+
+end step
+
+section runlevel
+variable {σ χ α : Type} [Field α] [LinearOrder α] [IsStrictOrderedRing α]
+  (exp : α → α) (M : ModelOps σ χ α)
+
+/-- The temperature a proposal is decided at is the starting temperature cooled so far,
+`T0 * a^(number of CoolDowns before it)`; it is positive along the whole run when `0 < T0` and
+`0 < a` (this is what justifies the hypothesis `0 < T` of the decision theorems over sequences). -/
+theorem run_temperature_positive (ops : List (Op χ α)) (e : Explorer α) (s : σ)
+    (hT : 0 < e.temperature) (ha : 0 < e.coolingFactor) :
+    ∀ st ∈ steps (fieldArith exp) M ops e s,
+      st.temperature = e.temperature * e.coolingFactor ^ st.cools ∧ 0 < st.temperature := by
+  intro st hst
+  obtain ⟨-, h⟩ := stepsFrom_temperature exp M 0 ops e s st hst
+  rw [Nat.sub_zero] at h
+  exact ⟨h, h ▸ mul_pos hT (pow_pos ha _)⟩
+
+/-- The Metropolis rule for EVERY proposal of EVERY run (arbitrarily long sequences of proposals
+and cool-downs, any model, any draws), direction configured, positive starting temperature and
+cooling factor: an invalid proposal is reverted; a valid improving one is accepted with certainty
+(probability recorded as 1); every other valid one is accepted exactly when `exp(-|Δ|/T)` exceeds
+the draw, with `T` the (positive) temperature cooled so far, that value being the probability
+reported and one draw consumed. -/
+theorem run_metropolis (ops : List (Op χ α)) (e : Explorer α) (s : σ) (hdir : e.dir ≠ .unset)
+    (hT : 0 < e.temperature) (ha : 0 < e.coolingFactor) :
+    ∀ st ∈ steps (fieldArith exp) M ops e s,
+      0 < st.temperature ∧
+      (st.valid = false → st.decision = .revertInvalid) ∧
+      (st.valid = true → improving e.dir st.change → st.decision = .acceptDesirable 1) ∧
+      (st.valid = true → ¬ improving e.dir st.change →
+        (st.decision.accepted = true ↔ exp (-|st.change| / st.temperature) > st.draw) ∧
+        st.decision.probability = some (exp (-|st.change| / st.temperature)) ∧
+        st.decision.drew = true) := by
+  intro st hst
+  have hpos := (run_temperature_positive exp M ops e s hT ha st hst).2
+  have hd := (run_decision (fieldArith exp) M ops e s hdir).2 st hst
+  refine ⟨hpos, ?_, ?_, ?_⟩
+  · intro hv; rw [hd, hv]; exact (invalid_reverts _ _ _ _ _).1
+  · intro hv hi; rw [hd, hv]; exact improving_accepts exp e.dir _ _ _ hpos hi
+  · intro hv hi; rw [hd, hv]; exact otherwise_iff exp e.dir _ _ _ hpos hi
+
+end runlevel
+
+/-- … and over ℝ with the real exponential every probability reported along such a run lies in
+`[0,1]`. -/
+theorem run_prob_range {σ χ : Type} (M : ModelOps σ χ ℝ) (ops : List (Op χ ℝ)) (e : Explorer ℝ) (s : σ)
+    (hdir : e.dir ≠ .unset) (hT : 0 < e.temperature) (ha : 0 < e.coolingFactor) :
+    ∀ st ∈ steps (fieldArith Real.exp) M ops e s, ∀ p, st.decision.probability = some p → 0 ≤ p ∧ p ≤ 1 := by
+  intro st hst p hp
+  have hpos := (run_temperature_positive Real.exp M ops e s hT ha st hst).2
+  rw [(run_decision (fieldArith Real.exp) M ops e s hdir).2 st hst] at hp
+  exact decision_prob_range e.dir _ _ _ _ hpos p hp
+
+section catchment
+open Crem.Catchment in
+/-- the Lean catchment model (C01/C02) as the explorer sees a `model.Model`: the choice is the index
+of the action `TryRandomChange` toggles, the objective is the total of decision variable `v` -/
+def catchmentOps (D : Crem.Catchment.Data) (v : Crem.Catchment.VarId) :
+    ModelOps Crem.Catchment.State (Fin D.acts.length) ℚ where
+  tryChange := fun s i => Crem.Catchment.propose D s i.val
+  valid     := Crem.Catchment.changeIsValid D
+  change    := fun s => Crem.Catchment.change s v
+  accept    := Crem.Catchment.accept
+  revert    := Crem.Catchment.revert
+  objective := fun s => Crem.Catchment.total s v
+
+/-- The catchment model is lawful, by C02's theorems (`accept_is_reported_change`, `revert_exact`)
+and C01's invariant: on canonical states — every state a conformant history reaches — accepting a
+proposal moves the objective by exactly the change reported for it and reverting restores it, for
+each of the six decision variables as objective, any dataset satisfying C01's decidable hypotheses. -/
+theorem catchmentModel_lawful (exp : ℚ → ℚ) {D : Crem.Catchment.Data} (v : Crem.Catchment.VarId)
+    (hI : Crem.Catchment.InitConsistent D) (hK : Crem.Catchment.KeysDistinct D.acts) :
+    LawfulModel (fieldArith exp) (catchmentOps D v) (Crem.Catchment.Canon D) where
+  accept_inv := fun _ i hc => Crem.Catchment.accept_propose_canon hI.facts hK hc i.isLt
+  revert_inv := fun _ i hc => Crem.Catchment.revert_propose_canon hI.facts hc i.isLt
+  accept_obj := fun _ i hc => Crem.Catchment.accept_is_reported_change hI hK hc i.isLt v
+  revert_obj := fun _ i hc => ((Crem.Catchment.revert_exact hI hc i.isLt).2 v).1
+
+/-- Hence `objective_update` / `objective_final` apply to the real (Lean) catchment model: along any
+Kirkpatrick run over it, started in any state a conformant history reaches, the objective after an
+iteration is the previous value plus the reported change if the proposal was accepted and the
+previous value otherwise, and the final value is the initial one plus exactly the accepted changes. -/
+theorem objective_update_catchment (exp : ℚ → ℚ) {D : Crem.Catchment.Data} (v : Crem.Catchment.VarId)
+    (hI : Crem.Catchment.InitConsistent D) (hK : Crem.Catchment.KeysDistinct D.acts)
+    (txs : List Crem.Catchment.Tx) (ops : List (Op (Fin D.acts.length) ℚ)) (e : Explorer ℚ)
+    (hdir : e.dir ≠ .unset) :
+    (∀ r ∈ (run (fieldArith exp) (catchmentOps D v) ops e (Crem.Catchment.run D txs)).1,
+      r.after = if r.accepted then r.before + r.change else r.before) ∧
+    Crem.Catchment.total (run (fieldArith exp) (catchmentOps D v) ops e (Crem.Catchment.run D txs)).2.2 v =
+      (run (fieldArith exp) (catchmentOps D v) ops e (Crem.Catchment.run D txs)).1.foldl
+        (fun obj r => if r.accepted then obj + r.change else obj) (Crem.Catchment.total (Crem.Catchment.run D txs) v) := by
+  have hl := catchmentModel_lawful exp v hI hK
+  have hc := Crem.Catchment.canon_of_history hI hK txs
+  exact ⟨objective_update (fieldArith exp) (catchmentOps D v) hl ops e _ hdir hc,
+    objective_final (fieldArith exp) (catchmentOps D v) hl ops e _ hdir hc⟩
+
+end catchment
+
 /-! Non-vacuity and sanity examples (tests, labelled as such). -/
 
 /-- ℚ with a stand-in `exp` (constant ½): worsening move, draw below / above ½ -/
@@ -192,5 +329,25 @@ example :
     r.map (fun r => (r.before, r.change, r.accepted, r.after)) = [(100, 0, true, 105)] := by
   norm_num [run, tryRandomChange, acceptOrRevert, observedChange, desirable, acceptanceProbability,
     scriptedModel, fieldArith, Decision.accepted]
+
+/-- `run_metropolis` / `run_temperature_positive` are about something: a worsening proposal at
+`T = 10`, a cool-down (factor ½), an improving proposal decided at `T = 5` -/
+example :
+    let A := fieldArith (fun _ : ℚ => 1/2)
+    let e : Explorer ℚ := { dir := .minimising, temperature := 10, coolingFactor := 1/2,
+                            acceptanceProbability := 0, objectiveValueChange := 0 }
+    (steps A (scriptedModel A) [.try ((3 : ℚ), true) (1/4), .cool, .try ((-2 : ℚ), true) 0] e ⟨100, 0, true⟩).map
+      (fun st => (st.cools, st.temperature, st.valid, st.change, st.decision.accepted, st.decision.drew)) =
+      [(0, 10, true, 3, true, true), (1, 5, true, -2, true, false)] := by
+  norm_num [steps, stepsFrom, tryRandomChange, coolDown, acceptOrRevert, observedChange, desirable,
+    acceptanceProbability, scriptedModel, fieldArith, Decision.accepted, Decision.drew, Decision.probability]
+/-- the hypotheses of `catchmentModel_lawful` are satisfiable (the dataset of C01's examples), and
+the instance is about a proposal with a non-zero reported change in a non-initial state -/
+example : LawfulModel (fieldArith (fun _ : ℚ => 1/2)) (catchmentOps Crem.Catchment.exData .sed)
+    (Crem.Catchment.Canon Crem.Catchment.exData) :=
+  catchmentModel_lawful _ .sed (by decide +kernel) (by decide +kernel)
+example : (catchmentOps Crem.Catchment.exData .sed).change
+    ((catchmentOps Crem.Catchment.exData .sed).tryChange Crem.Catchment.exS ⟨0, by decide⟩) ≠ 0 := by
+  decide +kernel
 
 end Crem.Kirkpatrick
